@@ -508,13 +508,20 @@ def _run_concurrent(params: dict) -> dict:
                     return t.state.abort(reason='Requested')
                 return getattr(t.state, op)()
 
+            api_results: list = []
+
             async def issue(op, delay, coro=None):
                 for _ in range(delay):
                     await asyncio.sleep(0)
                 if coro is not None:
                     r = await coro
-                    return r if isinstance(r, tuple) else ('ok', r)
-                return await bench.apply(t, op)
+                    r = r if isinstance(r, tuple) else ('ok', r)
+                else:
+                    r = await bench.apply(t, op)
+                if op.startswith('api_'):
+                    # M3 under overlap: the public call returns normally iff the operation it issued was accepted
+                    api_results.append((op, r, id(asyncio.current_task())))
+                return r
             if eager:
                 coros = [make(o) for o in ops]
                 op_tasks = [asyncio.ensure_future(issue(o, d, c)) for o, d, c in zip(ops, staggers, coros)]
@@ -528,6 +535,19 @@ def _run_concurrent(params: dict) -> dict:
                     op_tasks[cancel_after[0]].cancel()
                     runner.add_obs(res, 'requests_cancelled_mid_flight')
             outcomes = await asyncio.gather(*op_tasks, return_exceptions=True)
+            for op, r, task_id in api_results:
+                base = op[4:]
+                mine = [o for o in tm.ops[n_ops0:] if o.get('task') == task_id and o['op'] == base and 't_done' in o]
+                if not mine:
+                    continue
+                runner.add_obs(res, 'api_calls_judged_under_overlap')
+                accepted = any(o.get('result') is True for o in mine)
+                returned = r == ('ok', True)
+                if returned != accepted:
+                    runner.violation(
+                        res, f"concurrent:api-{'returned-although-refused' if returned else 'raised-although-accepted'}:{base}:{direction.lower()}",
+                        ops=ops, state=state, staggers=staggers, outcome=list(r) if isinstance(r, tuple) else repr(r),
+                        records=[(o['op'], o.get('actual'), o.get('result')) for o in mine], final=t.state.VALUE.name)
             if late is not None:
                 runner.add_obs(res, 'late_observer_edges', late.seen)
                 for edge in late.bad:
